@@ -26,6 +26,34 @@
 (* loaded record) from what the property and the documentation of save()    *)
 (* promise, not from the steps; it is evaluated on the machine's result     *)
 (* here and on the implementation's result in SaveLoadTrace.               *)
+(*                                                                          *)
+(* Options of the constructor that save() does NOT record (class             *)
+(* "not persisted"): obj.np = [snf, tol, issym, dense, factor]                *)
+(*   snf    use_SNF_supercell  - the ORDER of the supercell atoms; matters    *)
+(*          for supercell matrices where the two constructions differ        *)
+(*          (obj.cell.snfS).  The saved dataset and force constants are       *)
+(*          indexed by that order, and the saved file contains the supercell. *)
+(*   tol    symprec ("default" 1e-5 / "loose") - written as                   *)
+(*          symmetry_tolerance; a primitive matrix found at the loose         *)
+(*          tolerance (obj.cell.fragile) is not a symmetry at the default one *)
+(*   issym  is_symmetry        - only force constants re-derived from a       *)
+(*          dataset depend on it                                              *)
+(*   dense  store_dense_svecs  - no observable effect                         *)
+(*   factor frequency unit factor - written, never read; the property text    *)
+(*          claims the same phonons "with that calculator's default unit     *)
+(*          factor": an own factor rescales the reloaded frequencies by      *)
+(*          default/own and nothing else (NotPersistedEffects)               *)
+(* load() takes the same options as arguments (args.np).  The machine below  *)
+(* describes the REPAIRED load (fixes/c16-snf-supercell-order.md,             *)
+(* fixes/c16-symmetry-tolerance-not-read.md): the atom order of the saved     *)
+(* supercell and the saved tolerance are honoured; PinnedLoad = TRUE gives    *)
+(* the pinned tree's behaviour.                                               *)
+(*                                                                          *)
+(* Crystal structure by argument (args.cells, documented priority            *)
+(* unitcell_filename > supercell_filename > unitcell > supercell >           *)
+(* phonopy_yaml): the saved file is then not parsed; structure files are     *)
+(* read with the reader of the calculator argument (args.fmt is the format   *)
+(* the file is written in).                                                  *)
 EXTENDS Integers, Sequences, FiniteSets, TLC
 
 CONSTANTS
@@ -34,7 +62,8 @@ CONSTANTS
   Comps,      \* subset of {"F", "T", "xz"}
   ArgsSet,    \* set of load-argument records
   Envs,       \* set of ambient-file records
-  HasFcSolver \* BOOLEAN: a solver for type-2 datasets (symfc/alm) is installed
+  HasFcSolver, \* BOOLEAN: a solver for type-2 datasets (symfc/alm) is installed
+  PinnedLoad   \* BOOLEAN: load() as in the pinned tree (saved supercell order and tolerance ignored)
 
 VARIABLES pc, obj, st, comp, args, env, yaml, rd, ld
 vars == <<pc, obj, st, comp, args, env, yaml, rd, ld>>
@@ -43,8 +72,14 @@ vars == <<pc, obj, st, comp, args, env, yaml, rd, ld>>
 (* vocabulary *)
 NoDs  == [type |-> 0, forces |-> FALSE, energies |-> FALSE]
 NoNacW == [born |-> FALSE, eps |-> FALSE, method |-> "none", factor |-> FALSE]
-NoYaml == [container |-> "none", calc |-> "none", ds |-> NoDs, fc |-> "none", nac |-> NoNacW]
-NoLd == [status |-> "none", calc |-> "none", units |-> "none",
+NoYaml == [container |-> "none", calc |-> "none", ds |-> NoDs, fc |-> "none", nac |-> NoNacW,
+           tol |-> "default", order |-> "same", ffac |-> "default"]
+NpObj0 == [snf |-> FALSE, tol |-> "default", issym |-> TRUE, dense |-> TRUE, factor |-> "default"]
+NpArg0 == [snf |-> FALSE, tol |-> "unset", issym |-> TRUE, dense |-> TRUE, factor |-> "unset"]
+NoCells == [ucfile |-> FALSE, scfile |-> FALSE, unitcell |-> FALSE, supercell |-> FALSE]
+NoLd == [status |-> "none", why |-> "none", calc |-> "none", units |-> "none",
+         cell |-> [src |-> "none", smat |-> "none"],
+         np |-> [order |-> "same", tol |-> "default", issym |-> TRUE, freq |-> "default"],
          ds |-> [src |-> "none", type |-> 0, forces |-> FALSE, energies |-> FALSE],
          fc |-> [src |-> "none", layout |-> "none", sym |-> FALSE],
          nac |-> [src |-> "none", method |-> "none", factor |-> "none"]]
@@ -77,14 +112,26 @@ WrittenFc(o, s) == IF FcSwitch(o, s) THEN o.fc ELSE "none"
 
 Container(c) == IF c \in {"T", "xz"} THEN "xz" ELSE "plain"
 
+(* order of the supercell atoms of an object / of a construction flag: only supercell      *)
+(* matrices of the sensitive kind distinguish the two constructions                       *)
+Order(o, flag) == IF o.cell.snfS THEN (IF flag THEN "snf" ELSE "classic") ELSE "same"
+
+(* crystal structure by argument: the documented priority list *)
+CellSrc(a) == IF a.cells.ucfile THEN "ucfile" ELSE IF a.cells.scfile THEN "scfile"
+              ELSE IF a.cells.unitcell THEN "unitcell" ELSE IF a.cells.supercell THEN "supercell" ELSE "yaml"
+Reader(c) == IF c = "qe" THEN "qe" ELSE "vasp"     \* calculator None is the VASP reader
+(* supercell matrix classes: "obj" (the object's) / "identity"; they coincide for cells whose matrix is the unit matrix *)
+Smat(o, x) == IF o.cell.sid /\ x = "obj" THEN "identity" ELSE x
+
 Init ==
   /\ pc = "choose"
-  /\ obj = [cell |-> [name |-> "none", ext |-> FALSE, mag |-> "none", masses |-> "std", generic |-> FALSE], calc |-> "none", ds |-> NoDs, fc |-> "none",
-            nac |-> [kind |-> "none", factor |-> FALSE]]
+  /\ obj = [cell |-> [name |-> "none", ext |-> FALSE, mag |-> "none", masses |-> "std", generic |-> FALSE, snfS |-> FALSE, fragile |-> FALSE, sid |-> TRUE],
+            calc |-> "none", ds |-> NoDs, fc |-> "none", nac |-> [kind |-> "none", factor |-> FALSE], np |-> NpObj0]
   /\ st = [fs |-> "unset", disp |-> "unset", fc |-> "unset", born |-> "unset", eps |-> "unset"]
   /\ comp = "F"
   /\ args = [isCompact |-> TRUE, produceFc |-> TRUE, isNac |-> TRUE, nacArg |-> FALSE, bornFile |-> FALSE,
-             fsFile |-> 0, fcFile |-> "none", calcArg |-> "none", cellArg |-> "none"]
+             fsFile |-> 0, fcFile |-> "none", calcArg |-> "none", cells |-> NoCells, fmt |-> "vasp", smatArg |-> FALSE,
+             pmatArg |-> FALSE, np |-> NpArg0]
   /\ env = [FS |-> 0, FC |-> "none", H5 |-> "none", BORN |-> FALSE]
   /\ yaml = NoYaml /\ rd = NoYaml /\ ld = NoLd
 
@@ -98,7 +145,8 @@ Choose ==
 Save ==
   /\ pc = "save"
   /\ yaml' = [container |-> Container(comp), calc |-> obj.calc, ds |-> WrittenDs(obj, st),
-              fc |-> WrittenFc(obj, st), nac |-> WrittenNac(obj, st)]
+              fc |-> WrittenFc(obj, st), nac |-> WrittenNac(obj, st),
+              tol |-> obj.np.tol, order |-> Order(obj, obj.np.snf), ffac |-> obj.np.factor]
   /\ pc' = "read"
   /\ UNCHANGED <<obj, st, comp, args, env, rd, ld>>
 
@@ -108,16 +156,37 @@ Save ==
 (* the phonopy_yaml file is not read at all.                                                  *)
 ReadYaml ==
   /\ pc = "read"
-  /\ rd' = IF args.cellArg # "none" THEN [NoYaml EXCEPT !.container = yaml.container]
+  /\ rd' = IF CellSrc(args) # "yaml" THEN [NoYaml EXCEPT !.container = yaml.container]
            ELSE [yaml EXCEPT !.nac = IF yaml.nac.born /\ yaml.nac.eps THEN yaml.nac ELSE NoNacW]
   /\ pc' = "construct"
   /\ UNCHANGED <<obj, st, comp, args, env, yaml, ld>>
 
+(* cui/load.py: cell and matrices, calculator and its default units, Phonopy(...) *)
 Construct ==
   /\ pc = "construct"
   /\ LET c == IF args.calcArg # "none" THEN args.calcArg ELSE rd.calc
-     IN ld' = [ld EXCEPT !.status = "ok", !.calc = c, !.units = c]
-  /\ pc' = "nac"
+         src == CellSrc(args)
+         fromYaml == src = "yaml"
+         (* a structure file is read with the reader of the calculator ARGUMENT *)
+         misread == src \in {"ucfile", "scfile"} /\ Reader(args.calcArg) # args.fmt
+         smat == IF fromYaml THEN "obj"
+                 ELSE IF src \in {"scfile", "supercell"} THEN "identity"
+                 ELSE IF args.smatArg THEN "obj" ELSE "identity"
+         (* symmetry tolerance: the argument, else (repaired) the one recorded in the file *)
+         tolEff == IF args.np.tol # "unset" THEN args.np.tol
+                   ELSE IF fromYaml /\ ~PinnedLoad THEN rd.tol ELSE "default"
+         (* the object's primitive matrix is used (from the file, or handed in again) *)
+         objPmat == fromYaml \/ args.pmatArg
+         broken == objPmat /\ obj.cell.fragile /\ obj.np.tol = "loose" /\ tolEff = "default"
+         built == Order(obj, args.np.snf)
+         orderEff == IF fromYaml /\ ~PinnedLoad THEN rd.order ELSE built
+     IN /\ pc' = (IF misread \/ broken THEN "done" ELSE "nac")
+        /\ ld' = [ld EXCEPT !.status = IF misread \/ broken THEN "raised" ELSE "ok",
+                         !.why = IF misread THEN "structure" ELSE IF broken THEN "symmetry" ELSE "none",
+                         !.calc = c, !.units = c,
+                         !.cell = [src |-> src, smat |-> Smat(obj, smat)],
+                         !.np = [order |-> orderEff, tol |-> tolEff, issym |-> args.np.issym,
+                                 freq |-> IF args.np.factor = "own" THEN "own" ELSE "default"]]
   /\ UNCHANGED <<obj, st, comp, args, env, yaml, rd>>
 
 (* cui/load.py + load_helper.get_nac_params *)
@@ -165,7 +234,7 @@ Produce ==
   /\ pc = "produce"
   /\ IF ld.fc.src = "none" /\ args.produceFc /\ ld.ds.forces
        THEN IF ld.ds.type = 2 /\ ~HasFcSolver
-              THEN ld' = [ld EXCEPT !.status = "raised"]         \* ForceCalculatorRequiredError
+              THEN ld' = [ld EXCEPT !.status = "raised", !.why = "solver"]     \* ForceCalculatorRequiredError
               ELSE ld' = [ld EXCEPT !.fc = [src |-> "produced", layout |-> Layout(args), sym |-> TRUE]]
        ELSE ld' = ld
   /\ pc' = "done"
@@ -188,7 +257,7 @@ AskedNac(o, s) == o.nac.kind # "none" /\ On(s.born) /\ On(s.eps)
 
 NoNacOverride(a) == ~a.nacArg /\ ~a.bornFile /\ a.isNac
 (* the saved file is the source of the crystal structure (documented: otherwise it is not parsed) *)
-FromFile(a) == a.cellArg = "none"
+FromFile(a) == CellSrc(a) = "yaml"
 
 Ok(r) == r.status = "ok"
 
@@ -251,15 +320,47 @@ ReqExplicitBeatsAmbient(a, r) ==
 
 (* loading never fails on a file that save() wrote (a missing solver for type-2      *)
 (* datasets is an environment matter and the only exception)                        *)
-ReqLoads(r, solver) ==
-  r.status = "raised" => ~solver /\ r.ds.type = 2 /\ r.ds.forces /\ r.fc.src = "none"
+(* further exceptions: a structure file read with another calculator's reader, and a       *)
+(* tolerance handed to load() that is tighter than the one the calculation was made with  *)
+ReqLoads(o, a, r, solver) ==
+  r.status = "raised" =>
+    \/ r.why = "solver" /\ ~solver /\ r.ds.type = 2 /\ r.ds.forces /\ r.fc.src = "none"
+    \/ r.why = "structure" /\ CellSrc(a) \in {"ucfile", "scfile"} /\ Reader(a.calcArg) # a.fmt
+    \/ r.why = "symmetry" /\ o.cell.fragile /\ o.np.tol = "loose" /\ (a.np.tol = "default" \/ ~FromFile(a))
+
+(* ---- what save() does not record ---- *)
+(* the saved dataset and force constants are indexed by the atoms of the saved supercell: *)
+(* the reloaded supercell has them in that order, whatever use_SNF_supercell says          *)
+ReqAtomOrder(o, a, r) == Ok(r) /\ FromFile(a) => r.np.order = Order(o, o.np.snf)
+(* the tolerance the calculation was made with is recorded in the file and used, unless    *)
+(* load() is told otherwise                                                               *)
+ReqTolerance(o, a, r) == Ok(r) /\ FromFile(a) /\ a.np.tol = "unset" => r.np.tol = o.np.tol
+(* repeating the constructor's options as arguments of load() reproduces all of them *)
+SameOptions(o, a) == a.np.snf = o.np.snf /\ a.np.tol = o.np.tol /\ a.np.issym = o.np.issym
+                     /\ (a.np.factor = "own") = (o.np.factor = "own")
+ReqSameOptions(o, a, r) ==
+  Ok(r) /\ FromFile(a) /\ SameOptions(o, a) =>
+    r.np = [order |-> Order(o, o.np.snf), tol |-> o.np.tol, issym |-> o.np.issym, freq |-> o.np.factor]
+(* NotPersistedEffects - declared, allowed differences of a default load():               *)
+(*   factor: frequencies are rescaled by default/own (property: "with that calculator's   *)
+(*           default unit factor"); issym: force constants re-derived from the dataset    *)
+(*           are those of the symmetry setting of load(); dense: none.                    *)
+PhononScale(o, r) == IF r.np.freq = o.np.factor THEN "same" ELSE IF r.np.freq = "default" THEN "default/own" ELSE "own/default"
+DerivedFcComparable(o, r) == r.np.issym = o.np.issym
+(* crystal structure arguments: the documented priority and matrices *)
+ReqCellPriority(o, a, r) ==
+  Ok(r) => /\ r.cell.src = CellSrc(a)
+           /\ (r.cell.src \in {"scfile", "supercell"} => r.cell.smat = "identity")
+           /\ (r.cell.src \in {"ucfile", "unitcell"} => r.cell.smat = Smat(o, IF a.smatArg THEN "obj" ELSE "identity"))
+           /\ (r.cell.src = "yaml" => r.cell.smat = Smat(o, "obj"))
 
 Requirement(o, s, a, e, y, r) ==
   /\ ReqCalculator(o, a, r) /\ ReqUnitsFollowCalculator(r)
   /\ ReqDataset(o, s, a, r) /\ ReqDisplacements(o, s, a, e, r)
   /\ ReqForceConstants(o, s, a, r) /\ ReqNac(o, s, a, r)
   /\ ReqPhononsFromSaved(o, s, a, e, r) /\ ReqNothingInvented(o, s, a, e, r) /\ ReqSaveRule(o, s, y)
-  /\ ReqNoAmbientCapture(o, s, a, r) /\ ReqCellArgument(a, r) /\ ReqExplicitBeatsAmbient(a, r) /\ ReqLoads(r, HasFcSolver)
+  /\ ReqNoAmbientCapture(o, s, a, r) /\ ReqCellArgument(a, r) /\ ReqExplicitBeatsAmbient(a, r) /\ ReqLoads(o, a, r, HasFcSolver)
+  /\ ReqAtomOrder(o, a, r) /\ ReqTolerance(o, a, r) /\ ReqSameOptions(o, a, r) /\ ReqCellPriority(o, a, r)
 
 -----------------------------------------------------------------------------
 (* invariants of the step machine *)
@@ -274,7 +375,11 @@ InvPhononsFromSaved == Done => ReqPhononsFromSaved(obj, st, args, env, ld) /\ Re
 InvSaveRule == Done => ReqSaveRule(obj, st, yaml)
 InvNoAmbientCapture == Done => ReqNoAmbientCapture(obj, st, args, ld) /\ ReqCellArgument(args, ld)
 InvExplicitBeatsAmbient == Done => ReqExplicitBeatsAmbient(args, ld)
-InvLoads == Done => ReqLoads(ld, HasFcSolver)
+InvLoads == Done => ReqLoads(obj, args, ld, HasFcSolver)
+InvAtomOrder == Done => ReqAtomOrder(obj, args, ld)
+InvTolerance == Done => ReqTolerance(obj, args, ld)
+InvSameOptions == Done => ReqSameOptions(obj, args, ld)
+InvCellPriority == Done => ReqCellPriority(obj, args, ld)
 (* the written file holds nothing the object does not have *)
 InvWrittenSubset ==
   pc \notin {"choose", "save"} =>
